@@ -219,9 +219,17 @@ def gen_universe(rng, draft="2020", max_docs=3):
     if docs and rng.random() < 0.5:
         order = list(range(len(docs)))
         rng.shuffle(order)
+        alias_all = rng.random() < 0.35
         for a, b in zip(order, order[1:] + order[:1]):
-            if rng.random() < 0.7:
+            if rng.random() < 0.7 or alias_all:
                 docs[a][1].set("properties", Obj([("next", Obj([("$ref", docs[b][0])]))]))
+            if alias_all and docs[a][1].get("$id") is None:
+                # every document of the cycle is served from one URL and names itself by another ($id): the cycle closes only if
+                # the loader cache knows a loaded document under its retrieval URL before its references are followed
+                cid = SITE + "/canon/cyc%d.json" % a
+                if cid not in used_res:
+                    used_res.add(cid)
+                    docs[a][1].kvs.insert(0, ("$id", cid))
         if base and rng.random() < 0.5:
             docs[order[-1]][1].set("additionalProperties", Obj([("$ref", base)]))
     # references between loaded documents, to marked targets (anchors / pointers / roots), incl. back to the root
@@ -236,6 +244,26 @@ def gen_universe(rng, draft="2020", max_docs=3):
             cur = docs[src][1].get("properties") or Obj()
             cur.kvs.append(("q%d" % len(cur.kvs), Obj([("$ref", ru + frag)])))
             docs[src][1].set("properties", cur)
+    # two hops: root -> document a -> a marked target of document b (b preferably not referenced from the root at all, and in draft-07
+    # often without its own $schema, so that b is read under the draft a inherited from the root)
+    hop = None
+    if len(docs) >= 2 and rng.random() < 0.35:
+        direct = {t.doc for t in expect_targets if t is not None}
+        bs = [i for i in range(len(docs)) if i not in direct] or list(range(len(docs)))
+        b = rng.choice(bs)
+        a = rng.choice([i for i in range(len(docs)) if i != b])
+        tb = [t for t in targets if t.doc == b and not t.embedded]
+        if tb:
+            t = rng.choice(tb)
+            frag = "#" + frag_encode(t.anchor) if t.anchor and rng.random() < 0.6 else "#" + frag_encode(t.ptr)
+            cur = docs[a][1].get("properties") or Obj()
+            cur.kvs.append(("hop", Obj([("$ref", uris[b] + frag)])))
+            docs[a][1].set("properties", cur)
+            props.kvs.append(("ph", Obj([("$ref", uris[a])])))
+            if draft == "7" and rng.random() < 0.7:
+                for d in (a, b):
+                    docs[d][1].kvs = [kv for kv in docs[d][1].kvs if kv[0] != "$schema"]
+            hop = t
     # faults
     fail = set()
     if docs and rng.random() < 0.25:
@@ -258,6 +286,10 @@ def gen_universe(rng, draft="2020", max_docs=3):
         for m in rng.sample(marks, min(len(marks), 3)) + ([t.mark] if t else []):
             insts.append(Obj([("p%d" % i, m)]))
             expect.append(t is not None and m == t.mark)
+    if hop is not None:
+        for m in rng.sample(marks, min(len(marks), 2)) + [hop.mark]:
+            insts.append(Obj([("ph", Obj([("hop", m)]))]))
+            expect.append(m == hop.mark)
     needs = set()
     for t in expect_targets:
         if t is not None and t.doc >= 0:
